@@ -130,6 +130,12 @@ def r1_tables(program, rep):
 
     # -- creation of a new (key, mask) on a chip ---------------------------------
     pairs = calls_in(fn, "InOutPair")
+    if not pairs or not calls_in(fn, "RoutingTableEntry") or not any(
+            raise_name(r) == "MultisourceRouteError" for r in raises_of(fn)):
+        raise AnalysisError("routing_tree_to_tables: the per-chip records "
+                            "(InOutPair), the multi-source error or the "
+                            "table entries are not built in this function "
+                            "in the form analysed")
     okp = len(pairs) == 1
     create_node = None
     arr_expr = None
@@ -370,6 +376,10 @@ def _traverse(program, rep):
             pop = [t for t in subterms(NODE)
                    if t[0] in ("call", "callv") and t[1][0] == "attr" and
                    t[1][2] in ("popleft", "pop") and t[1][1] == Q]
+            if not pop:
+                raise AnalysisError("RoutingTree.traverse: nodes are not "
+                                    "taken from the queue by pop/popleft; "
+                                    "that traversal form is not analysed")
             oky = bool(pop) and NODE == ("comp", pop[0], 1) and \
                 d == ("comp", pop[0], 0) and \
                 chip == ("attr", NODE, "chip") and outs == SET
